@@ -9,7 +9,7 @@ ID = 'C19'
 LEVEL = 'exploration'
 RULE = ('bounded-exhaustive: base lists of <= 3 lines over a 15-password pool (leading/trailing/inner spaces, non-ASCII, $HEX[ look-alikes, digit-then-space prefixes, multiplicities 1..3); for each base list EVERY assignment of '
         '{plain, $HEX} to its lines x {LF, CRLF} x {repeated lines, run-length collapsed with --prefixcount} x {utf-8, latin-1, cp1251} is read by the real TrainerFileInput and must yield the base sequence; '
-        'rulesets trained from the variants of one base list must be byte-identical (modulo uuid/file name) to the plain one; junk lines (blank, tab, every C0 control, U+0085, U+2028, U+2029, undecodable bytes, broken $HEX) '
+        'rulesets trained from the variants of one base list must be byte-identical (modulo uuid/file name) to the plain one; junk lines (blank, tab, every C0 control, U+0085, U+2028, U+2029 - each in the middle, first, last, doubled at the end of a line and as the whole line -, undecodable bytes, broken $HEX) '
         'inserted at every position must be skipped without changing the yielded sequence or the ruleset; three successive readers must yield the same sequence; non-trivial = variant that differs from the plain LF file')
 ASSUMPTIONS = ['a password of the form $HEX[...] cannot be written plainly in the trainer input language; such base passwords are only written in $HEX form',
                'rulesets are compared within one encoding (the files are written in the training encoding)']
